@@ -4,6 +4,7 @@ import StorageModel.C04.Marks
 import StorageModel.C04.Spec
 import StorageModel.C04.Render
 import StorageModel.C04.Tier
+import StorageModel.C04.Gen
 /- model driver for C04: `run spec` reads case lines on stdin and prints one output line per case
    (spec = false: the engine model's output; spec = true: the spec's verdict).
 
@@ -160,10 +161,102 @@ def tierStep (spec : Bool) (kind v : String) (txs : List String) : String :=
     if out.isEmpty then "empty" else " ".intercalate out
   | none => "bad-case"
 
+/-! ### kind `g` / `G`: random schemas over the schema-parametric model (`C04/Gen.lean`, harness `c04_gen.go`) -/
+
+def parseGDecl (w : String) : Option GDecl :=
+  match w.splitOn "." with
+  | [a, b, k, n, r] => do
+    if k ≠ "i" ∧ k ≠ "c" then none
+    if r ≠ "d" ∧ r ≠ "r" then none
+    pure { src := ← a.toNat?, tgt := ← b.toNat?, index := k = "i", nullable := n = "1", cascade := r = "d" }
+  | _ => none
+
+/-- `<reuse 0|1>;<number of stores>;<decl>;<decl>…` -/
+def parseGSchema (w : String) : Option (Bool × Nat × GSchema) :=
+  match w.splitOn ";" with
+  | r :: n :: ds => do
+    let n ← n.toNat?
+    let σ ← ds.mapM parseGDecl
+    if σ.any (fun d => d.src ≥ n || d.tgt ≥ n) then none
+    pure (r = "1", n, σ)
+  | _ => none
+
+def gFields (σ : GSchema) (t : Nat) : List Nat := ((gDecls σ).filter (fun p => p.2.src == t)).map (·.1)
+
+def gRowOf (σ : GSchema) (t : Nat) (w : String) : Option GRow := do
+  let fs := gFields σ t
+  let vs ← (if w = "_" then some [] else (w.splitOn "/").mapM parseFV)
+  if vs.length ≠ fs.length then none
+  pure (fun i => ((fs.zip vs).lookup i).getD none)
+
+def gSelOf (σ : GSchema) (t : Nat) (w : String) : Option (Nat → Bool) :=
+  let fs := gFields σ t
+  let bs := if w = "_" then [] else w.toList.map (· == '1')
+  if bs.length ≠ fs.length then none
+  else some (fun i => ((fs.zip bs).lookup i).getD false)
+
+def parseGOp (σ : GSchema) (tok : String) : Option GOp :=
+  match tok.splitOn ":" with
+  | ["c", t, id, vs] => do let t ← t.toNat?; pure (GOp.create t (← Bytes.ofHex id) (← gRowOf σ t vs))
+  | ["u", t, id, vs] => do let t ← t.toNat?; pure (GOp.update t (← Bytes.ofHex id) (fun _ => true) (← gRowOf σ t vs))
+  | ["p", t, id, m, vs] => do let t ← t.toNat?; pure (GOp.update t (← Bytes.ofHex id) (← gSelOf σ t m) (← gRowOf σ t vs))
+  | ["d", t, id] => do pure (GOp.delete (← t.toNat?) (← Bytes.ofHex id))
+  | _ => none
+
+def gLiveIds (s : GSt) (t : Nat) : List Bytes :=
+  sortB (((s.ids.filter (fun k => k.1 == t && s.live k.1 k.2)).map (·.2)).eraseDups)
+
+def gCoarse (n : Nat) (σ : GSchema) (s : GSt) : String :=
+  "\n".intercalate (
+    ((List.range n).flatMap fun t =>
+      ("S" ++ toString t ++ ":" ++ wireList (gLiveIds s t)) ::
+      (gLiveIds s t).map fun x =>
+        toString t ++ ":" ++ Bytes.toWire x ++ ":" ++
+          "/".intercalate ((gFields σ t).map fun i => fvWire (((s.ent t x).getD (fun _ => none)) i))) ++
+    ((gDecls σ).filter (fun p => p.2.index)).flatMap fun p =>
+      (gLiveIds s p.2.tgt).map fun y => "K" ++ toString p.1 ++ ":" ++ Bytes.toWire y ++ ":" ++ wireList (s.back p.1 y))
+
+def gCount (n : Nat) (s : GSt) : Nat := ((List.range n).map fun t => (gLiveIds s t).length).foldl (· + ·) 0
+
+/-- the spec is a relation: every branch of allowed outcomes is followed (branches with the same observation merge);
+    more than 16 live branches: the rest of the history is undecided (`?`, accepted and counted by the check) -/
+def gSpecOpsN (σ : GSchema) (s0 : GSt) : Nat → List GOp → GSt → List (GSt × Option (Nat × Err))
+  | _, [], st => [(st, none)]
+  | k, op :: rest, st =>
+    (gSpecOutcomes σ st op).flatMap fun r =>
+      match r with
+      | .ok st' => gSpecOpsN σ s0 (k + 1) rest st'
+      | .error e => [(s0, some (k, e))]
+
+def runGenSpec (verbose : Bool) (n : Nat) (σ : GSchema) (txs : List (List GOp)) : List String :=
+  (txs.foldl (fun (acc : (List GSt × Bool) × List String) tx =>
+    if acc.1.2 then (acc.1, "?" :: acc.2) else
+    let outs := acc.1.1.flatMap (fun s => gSpecOpsN σ s 0 tx s)
+    let toks := outs.map (fun o => (obsToken verbose o.2 none (gCoarse n σ (gDerive σ o.1)) (gCount n o.1) 0, o.1))
+    let ded := toks.foldl (fun (l : List (String × GSt)) p => if l.any (fun q => q.1 == p.1) then l else l ++ [p]) []
+    if ded.length > 16 then ((acc.1.1, true), "?" :: acc.2)
+    else ((ded.map (·.2), false), "%%".intercalate (ded.map (·.1)) :: acc.2))
+    (([GSt.empty], false), [])).2.reverse
+
+def runGen (spec verbose reuse : Bool) (n : Nat) (σ : GSchema) (txs : List (List GOp)) : List String :=
+  if spec then runGenSpec verbose n σ txs else
+  (txs.foldl (fun (acc : (GSt × GMarks) × List String) tx =>
+      let ((s', r), m') := gRunTx σ (if reuse then acc.1.2 else []) acc.1.1 tx
+      ((s', m'), obsToken verbose r none (gCoarse n σ s') (gCount n s') m'.length :: acc.2))
+    ((GSt.empty, []), [])).2.reverse
+
+def genStep (spec : Bool) (kind v : String) (txs : List String) : String :=
+  match (parseGSchema v).bind (fun (r, n, σ) => (txs.mapM (fun (t : String) => (t.splitOn ",").mapM (parseGOp σ))).map (fun t => (r, n, σ, t))) with
+  | some (r, n, σ, txs) =>
+    let out := runGen spec (kind = "G") r n σ txs
+    if out.isEmpty then "empty" else " ".intercalate out
+  | none => "bad-case"
+
 def stepWith (spec : Bool) (line : String) : String :=
   match (splitSp line).filter (· ≠ "") with
   | kind :: v :: txs =>
     if kind = "t" ∨ kind = "T" then tierStep spec kind v txs else
+    if kind = "g" ∨ kind = "G" then genStep spec kind v txs else
     if kind ≠ "h" ∧ kind ≠ "v" ∧ kind ≠ "k" ∧ kind ≠ "w" then "bad-case" else
     let verbose := kind = "v" ∨ kind = "w"
     let reuse := kind = "k" ∨ kind = "w"
